@@ -37,14 +37,22 @@ def c05_file(draw):
     anames = [a for a in anames if N.safe_label(a)]
     stmts = []
     for n in dnames:
-        for _ in range(draw(st.sampled_from((1, 1, 2, 3)))):
-            stmts.append({"k": "define", "n": n, "v": draw(N.num_literal())})
+        vals = []
+        for _ in range(draw(st.sampled_from((1, 1, 2, 3, 4)))):
+            # a redefinition may restore an earlier value verbatim (default, override, restore)
+            v = draw(st.sampled_from(vals)) if vals and draw(st.sampled_from((False, False, True))) else draw(N.num_literal())
+            vals.append(v)
+            stmts.append({"k": "define", "n": n, "v": v})
     # a Define that is never used, and uses of names never defined, are part of the space
     used_defs = dnames + ["undefd"]
     for a in anames:
-        for _ in range(draw(st.sampled_from((1, 1, 2)))):
-            stmts.append({"k": "modelalias", "n": a, "model": draw(st.sampled_from(N.MODELS)),
-                          "params": draw(G.params_list(used_defs, 6))})
+        defs_a = []
+        for _ in range(draw(st.sampled_from((1, 1, 2, 3)))):
+            d_ = {"k": "modelalias", "n": a, "model": draw(st.sampled_from(N.MODELS)), "params": draw(G.params_list(used_defs, 6))}
+            if defs_a and draw(st.sampled_from((False, False, True))):
+                d_ = {**defs_a[0], "params": [dict(p_) for p_ in defs_a[0]["params"]]}  # an earlier definition repeated verbatim
+            defs_a.append(d_)
+            stmts.append(d_)
     nb = draw(st.integers(1, 5))
     mothers = draw(st.lists(st.sampled_from(paired), min_size=nb, max_size=nb, unique=True))
     pool = draw(G.name_pool(3, 6)) + list(mothers[:2])
